@@ -471,7 +471,51 @@ def emit_mapped(F, kinds=KINDS, names=False):
                 if raw:
                     r.violate("%s | names.%s" % (fn["path"], m), F.loc(fn, c),
                               "name map `%s` (keyed by %s index) was stored at parse time and is emitted unchanged: after the %s index space shifts, names attach to different entities" % (pp, space, space))
+    if names:
+        n_sinks += _name_index_clause(F, r, fn, body, repo)
     r.count("sinks", n_sinks)
+    return r
+
+
+def _name_index_clause(F, r, fn, body, repo):
+    """function-name indices: the index a name is emitted under is a *position* in the re-indexed function space — the
+    loop variable of the function walk, or a count of the live function imports seen so far — never a value seeded
+    from an `imports.num_*` counter (those still count deleted imports)"""
+    n_sinks = 0
+    names = True
+    if names:
+        for c in walk(body):
+            if c.get("k") == "MethodCall" and c["method"] == "append" and "NameMap" in (c.get("recv_ty") or "") and c["args"]:
+                n_sinks += 1
+                bad = None
+                seen_h = set()
+                stack_ = [c["args"][0]]
+                while stack_:
+                    e_ = stack_.pop()
+                    for x in walk(e_):
+                        if x.get("k") == "Field" and x["name"].startswith("num_"):
+                            bad = x["name"]
+                        if x.get("k") == "Path" and x.get("res", {}).get("r") == "local" and x["res"].get("hid") not in seen_h:
+                            seen_h.add(x["res"]["hid"])
+                            for st in walk(body):
+                                if st.get("k") == "Let" and st["pat"].get("hid") == x["res"]["hid"] and "init" in st:
+                                    stack_.append(st["init"])
+                ok = bad is None
+                r.ob(ok, {"sink": "name index", "expr": snippet(repo, fn["file"], c["args"][0]["sp"]), "seeded_from_counter": bad})
+                if not ok:
+                    r.violate("%s | name index from %s" % (fn["path"], bad), F.loc(fn, c),
+                              "a name is emitted under an index derived from `%s`, a counter that is not decremented when an import is deleted: after such a delete every later name is attached to the next entity" % bad)
+    return n_sinks
+
+
+def name_index(F):
+    r = RuleResult("R-NAME-INDEX", "every name-map entry is emitted under a position of the re-indexed index space, never under a value seeded from an `imports.num_*` counter (which still counts deleted imports)")
+    fn = enc_fn(F)
+    r.analysed.append(fn["path"])
+    n = _name_index_clause(F, r, fn, fn["body"], os.environ.get("ORCA_ANALYSED_REPO", REPO))
+    r.count("name_entries", n)
+    if n < 2:
+        raise CheckError("encode_internal: expected ≥2 NameMap::append sites (import names, local names), found %d" % n)
     return r
 
 
